@@ -451,7 +451,37 @@ func runC11(e *Env) {
 		w.c11Exec(e, &kase, nil)
 		return
 	}
-	nCases := e.Scale(260, 4000)
+	// ---- boundary stream (every tier): corners where two roles of the observation coincide or the recipient is absent —
+	// every denomination kind x every module-account recipient (incl. the erc20 module itself) and one user, with prior funds,
+	// a parsable and an unparsable recipient string, a failure at each EVM call of the conversion
+	for di := 0; di < c11NumDenoms; di++ {
+		for ri, rc := range []string{"M0", "M1", "M2", "M3", "U1"} {
+			thr := big.NewInt(int64(20000 + 100*di + ri))
+			kase := &c11Case{Fee: "3000000000000000", Rcpt: rc, PriorStd: big.NewInt(int64(6000 + e.Pick(30000))).String(),
+				PriorOther: "77", PriorV: map[int]string{}}
+			d := w.denoms[di]
+			if !d.Std {
+				kase.PriorV[di] = big.NewInt(int64(1 + e.Pick(5000))).String()
+				if e.Chance(0.7) {
+					kase.Pools = []c11PoolSpec{{Denom: di, Std: new(big.Int).Mul(thr, big.NewInt(1000)).String(), Tok: "5000000", Max: "1000000000000"}}
+				}
+			}
+			dst := []string{"channel-0", "channel-1", "channel-5"}[(di+ri)%3]
+			wl := []string{dst, "channel-0", "channel-1"} // voucher denominations fix their own channel: keep those whitelisted too
+			for k := 0; k < 4; k++ {
+				pk := c11Packet{Enabled: true, Whitelist: wl, Threshold: thr.String(), Denom: di, Channel: dst,
+					SrcChannel: []string{"channel-0", "channel-9"}[k%2], Amount: big.NewInt(int64(1000 + e.Pick(1_000_000))).String(),
+					BadRecipient: k%2 == 0, Plan: c04Plan{FailAt: 1 + (k+ri+di)%4}}
+				if k == 3 {
+					pk.BadSender, pk.BadRecipient = true, e.Chance(0.5)
+				}
+				kase.Packets = append(kase.Packets, pk)
+			}
+			e.Stats.Count("kind:boundary-stream-case")
+			w.c11Exec(e, kase, nil)
+		}
+	}
+	nCases := e.Scale(230, 4000)
 	if e.Tier == "search" {
 		nCases = 260
 	}
